@@ -33,7 +33,7 @@ MaxSteps == 4000
 \* what the semantics says the host sees at the end of a turn
 ExpectedTurn(mm) ==
   [ lines |-> SelectSeq(Out!Lines(mm.out), LAMBDA ln : \E i \in DOMAIN ln.text : ln.text[i] \notin {10, 32, 9}),
-    choices |-> [i \in 1..Len(mm.ch) |-> [text |-> mm.ch[i].text, tags |-> mm.ch[i].tags]],
+    choices |-> LET vis == SelectSeq(mm.ch, LAMBDA c : ~c.fb) IN [i \in 1..Len(vis) |-> [text |-> vis[i].text, tags |-> vis[i].tags]],
     status |-> CASE mm.st = "wait" -> "wait" [] mm.st = "over" -> "over" [] mm.st = "out" -> "error"
                  [] mm.err # "" -> "error" [] OTHER -> mm.st ]
 
